@@ -102,6 +102,10 @@ def rule_r1(prog, res) -> None:
     # binning_equal truth table
     be = ci.methods.get("binning_equal")
     build = ci.methods.get("build")
+    if build is not None:
+        from ..inline import inlined
+
+        build = inlined(prog, build, keep={"build_trees", "binning_equal"})  # private helpers (e.g. an extracted rebuild step) expanded in place
     if build is None:
         raise AnalysisError("C07.R1: BinnedTrees.build vanished")
     if be is not None:
@@ -206,120 +210,136 @@ def rule_r1(prog, res) -> None:
 
 
 def rule_r2(prog, res) -> None:
-    """marker persists what the predicate compares (writer/reader agreement)"""
-    ci, tmark, tcont = _tree_roles(prog)
-    from ..inline import inlined
+    """marker persists what the predicate compares (writer/reader agreement).
 
-    # same-module helpers (e.g. an extracted marker reader / writer) are expanded in place
-    build, init = inlined(prog, ci.methods["build"], keep={"build_trees"}), inlined(prog, ci.methods["__init__"])
-    res.touch(build)
-    res.touch(init)
-    # writer sequence on the marker
-    cfgw, effs = _fs_nodes(prog, build, deep=False)
-    wr = [(nd, e) for nd, e, leaf, _ in effs if leaf == tmark and e.op == "write"]
-    wr.sort(key=lambda t: (t[1].call.lineno, t[1].call.col_offset))
-    cfgr, reffs = _fs_nodes(prog, init, deep=False)
-    rd = [(nd, e) for nd, e, leaf, _ in reffs if leaf == tmark and e.op == "read"]
-    rd.sort(key=lambda t: (t[1].call.lineno, t[1].call.col_offset))
-    if len(wr) != 2 or len(rd) != 2:
-        raise AnalysisError(f"C07.R2: marker writer/reader shape changed (writes={len(wr)}, reads={len(rd)}); idiom not recognised")
-    w_flag, w_edges = wr[0][1].call, wr[1][1].call
-    r_flag, r_edges = rd[0][1].call, rd[1][1].call
-    # flag byte: written value = to_bytes(1) of int(<closed_left>), read = read(1)
-    ok_len = False
-    flag_expr = w_flag.args[0] if w_flag.args else None
-    fe = flag_expr
-    if isinstance(fe, ast.Name):
-        vals = [v for v in all_def_values(build.node, fe.id) if v is not None]
-        fe = vals[0] if len(vals) == 1 else fe
-    if isinstance(fe, ast.Call) and isinstance(fe.func, ast.Attribute) and fe.func.attr == "to_bytes" and fe.args and isinstance(fe.args[0], ast.Constant) and fe.args[0].value == 1:
-        if r_flag.args and isinstance(r_flag.args[0], ast.Constant) and r_flag.args[0].value == 1:
-            ok_len = True
-    if not ok_len:
-        res.violation("C07.R2", build, w_flag, "closed-side flag is not written as exactly one byte / not read back as one byte", key_extra="flag-width")
-    else:
-        res.ok("C07.R2", res.site(build, "flag byte"), "one flag byte written first and read first")
-    # encoding of closed side: evaluate writer for closed in {left,right}, reader for flag in {1,0}
-    # the value whose truth is written as flag byte, on the arm where a binning is given
-    flag_src = None
-    if isinstance(fe, ast.Call) and isinstance(fe.func, ast.Attribute) and isinstance(fe.func.value, ast.Call) and fe.func.value.args:
-        flag_src = fe.func.value.args[0]  # int(<x>).to_bytes(...)
-    enc = None
-    if isinstance(flag_src, ast.Name):
-        for st in walk_no_nested(build.node):
-            if isinstance(st, ast.If) and "None" in unparse(st.test) and "binning" in unparse(st.test):
-                try:
-                    none_arm_is_body = bool(ceval(st.test, {t: None for t in {unparse(x) for x in ast.walk(st.test) if isinstance(x, ast.Name)}}))
-                except Unknown:
-                    continue
-                arm = st.orelse if none_arm_is_body else st.body
-                for y in arm:
-                    if isinstance(y, ast.Assign) and any(isinstance(t, ast.Name) and t.id == flag_src.id for t in y.targets):
-                        enc = y.value
-    elif flag_src is not None:
-        enc = flag_src
-    dec = None
-    for x in walk_no_nested(init.node):
-        if isinstance(x, ast.IfExp) and "Closed" in unparse(x):
-            dec = x
-    # the reader's decoding expression with every local replaced by its definition (so that it is a function
-    # of the bytes returned by read(1) only, however many named steps the source uses)
+    Decided on the symbolic store of BinnedTrees.build (with a binning given) and BinnedTrees.__init__ (helpers,
+    private methods and closures looked through): what is written through the handle of the marker file, in which
+    order, and what is read back through the handle and handed to Binning(...).  The closed side is folded through
+    writer and reader for both sides (finite-domain constant folding)."""
     from .. import symx
 
+    ci, tmark, tcont = _tree_roles(prog)
+    build0, init0 = ci.methods["build"], ci.methods["__init__"]
+    res.touch(build0)
+    res.touch(init0)
+    bparam = next((q for q in build0.param_names() if "binning" in q), None)
+    if bparam is None:
+        raise AnalysisError("C07.R2: BinnedTrees.build has no binning parameter")
+    pol = symx.inline_private_helpers(prog, public={"build_trees", "binning_equal"})
+
+    def marker_handle(e) -> bool:
+        """e == ENTER(<…>.<marker path>.open(mode=…))"""
+        if isinstance(e, ast.Call) and isinstance(e.func, ast.Name) and e.func.id == symx.ENTER and e.args:
+            o = e.args[0]
+            if isinstance(o, ast.Call) and isinstance(o.func, ast.Attribute) and o.func.attr == "open":
+                from ..effects import path_leaf
+
+                return path_leaf(prog, build0, o.func.value) == tmark or (isinstance(o.func.value, ast.Attribute) and "binning" in o.func.value.attr)
+        return False
+
+    # ---- writer: events on the marker handle, on the paths that rebuild with a binning given
+    wpaths = symx.explore(prog, build0, env={bparam: "SOME", "force": True}, inline=pol, exceptions=False)
+    writes = []
+    for p in wpaths:
+        seq = []
+        for ev in p.calls():
+            f = ev.expr.func
+            if isinstance(f, ast.Attribute) and f.attr == "write" and marker_handle(f.value):
+                seq.append(("flag", ev.expr.args[0] if ev.expr.args else None, ev))
+            elif isinstance(f, ast.Attribute) and f.attr == "tofile" and ev.expr.args and marker_handle(ev.expr.args[0]):
+                seq.append(("edges", f.value, ev))
+        if seq:
+            writes.append(seq)
+    # ---- reader
+    rpaths = symx.explore(prog, init0, inline=pol, fork_ifexp=False, exceptions=False)
+    reads = []
+    restored = []
+    for p in rpaths:
+        seq = []
+        for ev in p.calls():
+            f = ev.expr.func
+            if isinstance(f, ast.Attribute) and f.attr == "read" and marker_handle(f.value):
+                seq.append(("flag", ev.expr, ev))
+            elif (dotted(f) or "").split(".")[-1] == "fromfile" and ev.expr.args and marker_handle(ev.expr.args[0]):
+                seq.append(("edges", ev.expr, ev))
+        if seq:
+            reads.append(seq)
+        for ev in p.events:
+            if ev.kind == "store" and isinstance(ev.expr, ast.Attribute) and ev.expr.attr == "binning" and ev.value is not None:
+                restored.append(ev)
+            if ev.kind == "call" and any(k.name == "Binning" for k in prog.resolve_call(ev.fi, ev.node).classes()):
+                restored.append(ev)
+    if not writes or not reads or any([k for k, _, _ in seq] != ["flag", "edges"] for seq in writes + reads):
+        raise AnalysisError(f"C07.R2: marker writer/reader shape changed (writes={[[k for k, _, _ in q] for q in writes][:2]}, reads={[[k for k, _, _ in q] for q in reads][:2]}); idiom not recognised")
+    w_flag, w_edges = writes[0][0][1], writes[0][1][1]
+    r_flag = reads[0][0][1]
+    # flag byte: to_bytes(1) written, read(1) read
+    ok_len = isinstance(w_flag, ast.Call) and isinstance(w_flag.func, ast.Attribute) and w_flag.func.attr == "to_bytes" and w_flag.args and isinstance(w_flag.args[0], ast.Constant) and w_flag.args[0].value == 1
+    ok_len = ok_len and r_flag.args and isinstance(r_flag.args[0], ast.Constant) and r_flag.args[0].value == 1
+    if not ok_len:
+        res.violation("C07.R2", build0, writes[0][0][2].node, "closed-side flag is not written as exactly one byte / not read back as one byte", key_extra="flag-width")
+    else:
+        res.ok("C07.R2", res.site(build0, "flag byte"), "one flag byte written first and read first")
+    # closed side: the reader's decoding expression (in terms of the bytes read), wherever it ends up
     dec_sub = None
-    for p_ in symx.explore(prog, ci.methods["__init__"], inline=symx.inline_private_helpers(prog), fork_ifexp=False):
-        for ev in p_.events:
-            if ev.kind == "store" and ev.value is not None:
-                for x in ast.walk(ev.value):
-                    if isinstance(x, ast.IfExp) and all(isinstance(a_, ast.Attribute) and (dotted(a_) or "").startswith("Closed.") for a_ in (x.body, x.orelse)):
-                        dec_sub = x
-    if enc is None or dec is None:
-        raise AnalysisError("C07.R2: closed-side encoding/decoding expressions not found (idiom not recognised)")
+    for ev in restored:
+        src = ev.value if ev.kind == "store" else ev.expr
+        for x in ast.walk(src):
+            if isinstance(x, ast.IfExp) and all(isinstance(a_, ast.Attribute) and (dotted(a_) or "").startswith("Closed.") for a_ in (x.body, x.orelse)):
+                dec_sub = x
     if dec_sub is None:
-        dec_sub = dec  # the decoded side does not reach a stored value (reported by the restore check below)
-    closed_texts = sorted({unparse(x) for x in ast.walk(enc) if isinstance(x, ast.Attribute) and x.attr == "closed"})
-    flag_names = sorted({n.id for n in ast.walk(dec.test) if isinstance(n, ast.Name) and n.id not in ("bool", "int")})
-    read_calls = [x for x in ast.walk(dec_sub.test) if isinstance(x, ast.Call) and isinstance(x.func, ast.Attribute) and x.func.attr == "read"]
-    try:
-        rt = {}
-        for c in ("left", "right"):
-            b = bool(ceval(enc, {t: c for t in closed_texts}))
-            # the byte that is written for this flag value …
-            written = None
-            if isinstance(fe, ast.Call):
-                fs = unparse(flag_src) if flag_src is not None else None
-                try:
-                    written = ceval(fe, {fs: b} if fs else {})
-                except Unknown:
-                    written = None
-            if isinstance(written, (bytes, bytearray)) and read_calls:
-                # … decoded by the reader's own (substituted) expression of the bytes read
-                rt[c] = ceval(dec_sub, {unparse(rc): written for rc in read_calls})
-            else:
-                rt[c] = ceval(dec, {f: int(b) for f in flag_names})
-    except Unknown as err:
-        raise AnalysisError(f"C07.R2: cannot evaluate closed-side encoding ({err})")
-    if rt == {"left": "left", "right": "right"}:
-        res.ok("C07.R2", res.site(init, unparse(dec)), "write(closed) then read gives the identity for closed=left and closed=right")
+        # the decoded side may be selected by an if statement: take it from the path decisions
+        for p in symx.explore(prog, init0, inline=pol, exceptions=False):
+            for ev in p.events:
+                if ev.kind == "call" and any(k.name == "Binning" for k in prog.resolve_call(ev.fi, ev.node).classes()):
+                    cl = kwarg(ev.expr, "closed") or (ev.expr.args[1] if len(ev.expr.args) > 1 else None)
+                    tests = [(t, pol_) for t, pol_ in p.literals() if any(isinstance(y, ast.Call) and isinstance(y.func, ast.Attribute) and y.func.attr == "read" for y in ast.walk(t))]
+                    if isinstance(cl, ast.Attribute) and (dotted(cl) or "").startswith("Closed.") and len(tests) == 1:
+                        other = "right" if cl.attr == "left" else "left"
+                        t, pol_ = tests[0]
+                        body, orelse = (cl, ast.Attribute(value=ast.Name(id="Closed", ctx=ast.Load()), attr=other, ctx=ast.Load())) if pol_ else (ast.Attribute(value=ast.Name(id="Closed", ctx=ast.Load()), attr=other, ctx=ast.Load()), cl)
+                        dec_sub = ast.IfExp(test=t, body=body, orelse=orelse)
+    roundtrip = None
+    if dec_sub is not None and isinstance(w_flag, ast.Call):
+        closed_texts = sorted({unparse(x) for x in ast.walk(w_flag) if isinstance(x, ast.Attribute) and x.attr == "closed"})
+        read_calls = [x for x in ast.walk(dec_sub.test) if isinstance(x, ast.Call) and isinstance(x.func, ast.Attribute) and x.func.attr == "read"]
+        try:
+            roundtrip = {}
+            for c in ("left", "right"):
+                written = ceval(w_flag, {t: c for t in closed_texts})
+                roundtrip[c] = ceval(dec_sub, {unparse(rc): written for rc in read_calls})
+        except Unknown as err:
+            raise AnalysisError(f"C07.R2: cannot evaluate closed-side encoding ({err})")
+        if not closed_texts:
+            roundtrip = {"left": "?", "right": "?"}
+    if roundtrip is None:
+        if dec_sub is None and not any(ev.kind == "call" and (kwarg(ev.expr, "closed") is not None or len(ev.expr.args) > 1) for ev in restored):
+            pass  # reported below: the restored binning does not receive the stored closed side
+        else:
+            raise AnalysisError("C07.R2: closed-side encoding/decoding expressions not found (idiom not recognised)")
+    elif roundtrip == {"left": "left", "right": "right"}:
+        res.ok("C07.R2", res.site(init0, unparse(dec_sub)[:60]), "write(closed) then read gives the identity for closed=left and closed=right")
     else:
-        res.violation("C07.R2", init, dec, f"closed side does not survive the marker file: left->{rt['left']}, right->{rt['right']}: trees built for one side are reused for the other", key_extra="closed-roundtrip")
+        res.violation("C07.R2", init0, reads[0][0][2].node, f"closed side does not survive the marker file: left->{roundtrip['left']}, right->{roundtrip['right']}: trees built for one side are reused for the other", key_extra="closed-roundtrip")
     # edges: writer writes binning.edges, reader hands the read array to Binning(edges, closed=closed)
-    w_recv = w_edges.func.value if isinstance(w_edges.func, ast.Attribute) else None
-    if w_recv is None or not depends_on(build.node, w_recv, lambda x: isinstance(x, ast.Attribute) and x.attr == "edges"):
-        res.violation("C07.R2", build, w_edges, "the array written to the marker is not the binning's edges", key_extra="edges-not-written")
+    if isinstance(w_edges, ast.Attribute) and w_edges.attr == "edges" and symx.mentions(w_edges, lambda y: isinstance(y, ast.Name) and y.id == bparam):
+        res.ok("C07.R2", res.site(build0, "edges.tofile"), "edges written after the flag byte")
     else:
-        res.ok("C07.R2", res.site(build, "edges.tofile"), "edges written after the flag byte")
+        res.violation("C07.R2", build0, writes[0][1][2].node, "the array written to the marker is not the binning's edges", key_extra="edges-not-written")
     okr = False
-    for c in calls_in(init):
-        if any(k.name == "Binning" for k in prog.resolve_call(init, c).classes()):
-            a0 = c.args[0] if c.args else kwarg(c, "edges")
-            cl = kwarg(c, "closed") or (c.args[1] if len(c.args) > 1 else None)
-            if a0 is not None and cl is not None and depends_on(init.node, a0, lambda x: x is r_edges) and depends_on(init.node, cl, lambda x: x is dec):
-                okr = True
+    for ev in restored:
+        if ev.kind != "call":
+            continue
+        a0 = ev.expr.args[0] if ev.expr.args else kwarg(ev.expr, "edges")
+        cl = kwarg(ev.expr, "closed") or (ev.expr.args[1] if len(ev.expr.args) > 1 else None)
+        from_file = a0 is not None and symx.mentions(a0, lambda y: isinstance(y, ast.Call) and (dotted(y.func) or "").split(".")[-1] == "fromfile")
+        closed_from_file = cl is not None and (symx.mentions(cl, lambda y: isinstance(y, ast.Call) and isinstance(y.func, ast.Attribute) and y.func.attr == "read") or (isinstance(cl, ast.Attribute) and (dotted(cl) or "").startswith("Closed.") and dec_sub is not None and not isinstance(dec_sub.test, ast.Constant)))
+        if from_file and closed_from_file:
+            okr = True
     if okr:
-        res.ok("C07.R2", res.site(init, "Binning(edges, closed=closed)"), "restored binning is built from the read edges and the decoded side")
+        res.ok("C07.R2", res.site(init0, "Binning(edges, closed=closed)"), "restored binning is built from the read edges and the decoded side")
     else:
-        res.violation("C07.R2", init, init.node, "the restored binning is not built from both the stored edges and the stored closed side", key_extra="restore-incomplete")
+        res.violation("C07.R2", init0, init0.node, "the restored binning is not built from both the stored edges and the stored closed side", key_extra="restore-incomplete")
 
 
 def rule_r3(prog, res) -> None:
